@@ -91,7 +91,8 @@ class _SlopeRemover(EndomorphicOperator):
         self._domain = makeDomain(domain)
         myassert(isinstance(self._domain[space], PowerSpace))
         logkl = _relative_log_k_lengths(self._domain[space])
-        sc = logkl/float(logkl[-1])
+        # With only one non-zero mode there is no slope to remove
+        sc = logkl/float(logkl[-1]) if logkl[-1] != 0 else np.zeros_like(logkl)
 
         self._space = space
         axis = self._domain.axes[space][0]
